@@ -67,6 +67,12 @@ CHECKS = {
             "plu rule must play role i, base cases must hand A itself (not a symmetrised or transposed variant) to the backend factorisation and wrap the factors with lower=True / "
             "True / False, Diagonal|ScalarMul rules return sqrt(A).",
             "L L^H = A and P L U = A as numbers and positive-definiteness are not decided; densification is C19.", "4/C11"),
+    "C16": ("def-use pairing, sign provenance and term rewriting over the svd rules; pinv rules as in C06",
+            "Structural necessary conditions of a valid SVD / pseudo-inverse: U, Sigma and V are permuted / sliced by one common index in every rule; Sigma is non-negative by "
+            "provenance (backend singular values, sqrt of eigenvalues, ones) and is refuted when it is the rule's own payload; the Krylov rules run the eigen-solver on H(A)A or A H(A) "
+            "(not on a transposed Gram matrix) and recover the other factor as A V inv(Sigma) / H(A) U inv(Sigma); pinv structural rules equal the inverse of the payload, the "
+            "least-squares operator has shape (columns, rows); Auto tables are exhaustive.",
+            "Orthonormality, best rank-k and minimum-norm optimality are numerical and not decided; the CG pinv rule regularises on purpose and has no exact-algebra obligation.", "4/C16"),
 }
 
 NOT_APPLICABLE = {
